@@ -357,3 +357,21 @@ CHECKS["C14"] = {
     ],
     "assumptions": ["fake servers listen on 127.0.0.1 with certificates from the harness CA"],
 }
+
+CHECKS["C18"] = {
+    "title": "Shutdown and failed start-up are orderly",
+    "level": "exploration",
+    "level_text": "Upstream level (every kind incl. the TCP fallback of UDP upstreams, under the race detector): generated schedules of warm, in-flight (held replies, delayed accepts/handshakes) and later exchanges around a concurrent double Close; every Close returns within 2 s, every exchange returns within 3 s of the Close although it has no deadline of its own, the fake server sees all its connections closed within 2 s and the process holds no additional sockets afterwards. Router level: generated configurations in which component i fails to start must exit with status 1 and a fatal log line (never a panic), releasing every address; SIGTERM under traffic with held upstream replies must exit 0 within 8 s. Exploration; schedules are sampled.",
+    "level_note": "The 8 s bound at router level is the 6 s request deadline (which the fasthttp listener's graceful shutdown may wait out) plus 2 s.",
+    "technique": "property-based testing (rapid): generated close schedules against counting fake servers under -race, socket-inode invariant; generated failing configurations against the real binary",
+    "parts": [
+        {"engine": "P", "pkg": "internal/upstream", "race": True, "tests": [
+            {"run": "TestVfC18UpstreamClose", "quick": 240, "thorough": 8000, "shards_quick": 8, "shards_thorough": 16, "timeout_thorough": 3400, "shrinktime": "10s"},
+        ]},
+        {"engine": "E", "proxy": ["plain"], "tests": [
+            {"run": "TestVfC18Startup", "quick": 120, "thorough": 3000, "shards_quick": 4, "shards_thorough": 8},
+            {"run": "TestVfC18Shutdown", "quick": 8, "thorough": 200, "shards_quick": 4, "shards_thorough": 8, "shrinktime": "20s"},
+        ]},
+    ],
+    "assumptions": ["exchanges started around Close use contexts without deadline, so 'returned' cannot be due to their own timeout"],
+}
